@@ -426,4 +426,102 @@ theorem qcmsCoeff_real (d : Nat) (t : Nat → ℂ) (ht : ∀ p, star (t p) = t p
   · simp only [qcmsAntiCoeff]; split_ifs <;> simp [ht]
   · simp only [qcmsHermCoeff]; split_ifs <;> simp [ht]
 
+/-! ### rank of a density matrix, positivity of the Choi operator, eigenvalue range -/
+
+
+theorem densityMatrix_rank_le (n k : Nat) (G : Nat → Nat → ℂ) : (toMat n n (densityMatrix n k G)).rank ≤ k := by
+  rw [toMat_densityMatrix, ← Matrix.smul_mul]
+  refine (Matrix.rank_mul_le_left _ _).trans ?_
+  simpa using Matrix.rank_le_card_width (((toMat n k G * (toMat n k G)ᴴ).trace)⁻¹ • toMat n k G)
+
+/-- `1 ⊗ T` on the flat index `i*dout + a` -/
+def liftT (dout : Nat) (T : Nat → Nat → ℂ) (z y : Nat) : ℂ := if z % dout = y % dout then T (z / dout) (y / dout) else 0
+
+theorem sum_lift (din dout t : Nat) (hd : 0 < dout) (F : Nat → Nat → ℂ) :
+    ∑ z : Fin (din * dout), (if z.val % dout = t % dout then F (z.val / dout) z.val else 0) =
+      ∑ i : Fin din, F i.val (i.val * dout + t % dout) := by
+  have h := sum_flat din dout fun a b => if b = t % dout then F a (a * dout + b) else 0
+  have e : ∀ z : Fin (din * dout), (if z.val % dout = t % dout then F (z.val / dout) z.val else 0)
+      = (fun a b => if b = t % dout then F a (a * dout + b) else 0) (z.val / dout) (z.val % dout) := by
+    intro z
+    simp only [Nat.div_add_mod']
+  rw [Finset.sum_congr rfl fun z _ => e z, h]
+  refine Finset.sum_congr rfl fun i _ => ?_
+  have ht : t % dout < dout := Nat.mod_lt _ hd
+  rw [Finset.sum_eq_single (⟨t % dout, ht⟩ : Fin dout)]
+  · simp
+  · intro b _ hb
+    have : b.val ≠ t % dout := fun e => hb (Fin.ext e)
+    simp [this]
+  · intro h; exact absurd (Finset.mem_univ _) h
+
+theorem toMat_choiOut (din dout r : Nat) (G T : Nat → Nat → ℂ) :
+    toMat (din * dout) (din * dout) (choiOut din dout r G T) =
+      (toMat (din * dout) (din * dout) (liftT dout T))ᴴ * toMat (din * dout) (din * dout) (gram r G) *
+        toMat (din * dout) (din * dout) (liftT dout T) := by
+  ext x y
+  have hd : 0 < dout := by
+    rcases Nat.eq_zero_or_pos dout with e | e
+    · subst e; exact absurd x.isLt (by simp)
+    · exact e
+  simp only [toMat, choiOut, sumR_eq, Matrix.mul_apply, Matrix.of_apply, Matrix.conjTranspose_apply, liftT, conj_eq_star]
+  -- inner sum over z
+  have inner : ∀ w : Fin (din * dout),
+      ∑ z : Fin (din * dout), star (if z.val % dout = x.val % dout then T (z.val / dout) (x.val / dout) else 0) * gram r G z.val w.val
+        = ∑ i : Fin din, star (T i.val (x.val / dout)) * gram r G (i.val * dout + x.val % dout) w.val := by
+    intro w
+    rw [← sum_lift din dout x.val hd fun i z => star (T i (x.val / dout)) * gram r G z w.val]
+    refine Finset.sum_congr rfl fun z _ => ?_
+    split <;> simp
+  simp only [inner]
+  have outer : ∑ w : Fin (din * dout), (∑ i : Fin din, star (T i.val (x.val / dout)) * gram r G (i.val * dout + x.val % dout) w.val) *
+        (if w.val % dout = y.val % dout then T (w.val / dout) (y.val / dout) else 0)
+      = ∑ j : Fin din, (∑ i : Fin din, star (T i.val (x.val / dout)) * gram r G (i.val * dout + x.val % dout) (j.val * dout + y.val % dout)) *
+          T j.val (y.val / dout) := by
+    rw [← sum_lift din dout y.val hd fun j w => (∑ i : Fin din, star (T i.val (x.val / dout)) * gram r G (i.val * dout + x.val % dout) w) * T j (y.val / dout)]
+    refine Finset.sum_congr rfl fun w _ => ?_
+    split <;> simp
+  rw [outer, Finset.sum_comm]
+  refine Finset.sum_congr rfl fun j _ => ?_
+  rw [Finset.sum_mul]
+
+theorem choiOut_posSemidef (din dout r : Nat) (G T : Nat → Nat → ℂ) :
+    (toMat (din * dout) (din * dout) (choiOut din dout r G T)).PosSemidef := by
+  rw [toMat_choiOut, toMat_gram]
+  exact (Matrix.posSemidef_self_mul_conjTranspose _).conjTranspose_mul_mul_same _
+
+
+
+/-- `a ≤ λ ≤ b` and `V` unitary: the spectrum of `V diag(λ) Vᴴ` lies in `[a, b]` (as operator inequalities `a·1 ≤ H ≤ b·1`) -/
+theorem hermEig_range (n : Nat) (V : Nat → Nat → ℂ) (lam : Nat → ℝ) (a b : ℝ) (hV : toMat n n V * (toMat n n V)ᴴ = 1)
+    (hl : ∀ i, i < n → a ≤ lam i ∧ lam i ≤ b) :
+    (toMat n n (hermEig n V fun i => (lam i : ℂ)) - (a : ℂ) • (1 : Matrix (Fin n) (Fin n) ℂ)).PosSemidef ∧
+      ((b : ℂ) • (1 : Matrix (Fin n) (Fin n) ℂ) - toMat n n (hermEig n V fun i => (lam i : ℂ))).PosSemidef := by
+  unfold hermEig
+  rw [toMat_specMat]
+  set W := toMat n n V
+  have e1 : W * Matrix.diagonal (fun i : Fin n => ((lam i.val : ℝ) : ℂ)) * Wᴴ - (a : ℂ) • (1 : Matrix (Fin n) (Fin n) ℂ)
+      = W * Matrix.diagonal (fun i : Fin n => ((lam i.val - a : ℝ) : ℂ)) * Wᴴ := by
+    have : Matrix.diagonal (fun i : Fin n => ((lam i.val - a : ℝ) : ℂ))
+        = Matrix.diagonal (fun i : Fin n => ((lam i.val : ℝ) : ℂ)) - (a : ℂ) • (1 : Matrix (Fin n) (Fin n) ℂ) := by
+      ext i j; by_cases h : i = j <;> simp [h]
+    rw [this, Matrix.mul_sub, Matrix.sub_mul, Matrix.mul_smul, Matrix.smul_mul, Matrix.mul_one, hV]
+  have e2 : (b : ℂ) • (1 : Matrix (Fin n) (Fin n) ℂ) - W * Matrix.diagonal (fun i : Fin n => ((lam i.val : ℝ) : ℂ)) * Wᴴ
+      = W * Matrix.diagonal (fun i : Fin n => ((b - lam i.val : ℝ) : ℂ)) * Wᴴ := by
+    have : Matrix.diagonal (fun i : Fin n => ((b - lam i.val : ℝ) : ℂ))
+        = (b : ℂ) • (1 : Matrix (Fin n) (Fin n) ℂ) - Matrix.diagonal (fun i : Fin n => ((lam i.val : ℝ) : ℂ)) := by
+      ext i j; by_cases h : i = j <;> simp [h]
+    rw [this, Matrix.mul_sub, Matrix.sub_mul, Matrix.mul_smul, Matrix.smul_mul, Matrix.mul_one, hV]
+  rw [e1, e2]
+  constructor
+  · refine (Matrix.PosSemidef.diagonal ?_).mul_mul_conjTranspose_same W
+    intro i
+    show (0 : ℂ) ≤ ((lam i.val - a : ℝ) : ℂ)
+    exact_mod_cast sub_nonneg.2 (hl i.val i.isLt).1
+  · refine (Matrix.PosSemidef.diagonal ?_).mul_mul_conjTranspose_same W
+    intro i
+    show (0 : ℂ) ≤ ((b - lam i.val : ℝ) : ℂ)
+    exact_mod_cast sub_nonneg.2 (hl i.val i.isLt).2
+
+
 end Numqi.RandNorm
